@@ -150,8 +150,9 @@ func childMain() {
 					func() {
 						defer func() {
 							if r := recover(); r != nil {
+								// a call that panics when run alone may panic here too: the panic
+								// is that call's result and is compared with the solo result
 								out.Results[i][j] = fmt.Sprintf("PANIC: %v", r)
-								out.Panics = append(out.Panics, fmt.Sprintf("caller %d call %d (%s %s): panic: %v", i, j, c.API, corpus[c.Prog].Name, r))
 							}
 						}()
 						out.Results[i][j] = doCall(c)
